@@ -458,7 +458,7 @@ func TestC09(t *testing.T) {
 				c.Steps = append(c.Steps, s)
 			}
 			if rapid.IntRange(0, 49).Draw(t, "linger") == 23 {
-				c.LingerMs = rapid.SampledFrom([]int{1500, 4000, 6000}).Draw(t, "lingerms")
+				c.LingerMs = rapid.SampledFrom([]int{4000, 6000, 1500}).Draw(t, "lingerms")
 			}
 			return c
 		},
